@@ -5,6 +5,7 @@
 // contains() probe and every step of every range walk (walks run under an own step cap, so a walk that
 // does not end is a verdict, not a hang).
 #include "verif.h"
+#include <sstream>
 #include <tins/ip_address.h>
 #include <tins/ipv6_address.h>
 #include <tins/hw_address.h>
@@ -526,12 +527,48 @@ template <class O> static void dispatch(u32 kind, Rng& rng) {
     }
 }
 
+// ---- stream form and the built-in classification ranges ------------------------------------------------------------
+// operator<< must print the textual form (to_string); the classification predicates are 'contains' on constant ranges and must
+// agree with plain arithmetic on the address value (RFC 1918 / 127/8 / 224/4 / 255.255.255.255; ::1, ff00::/8, fe80::/10 as documented).
+static u128 edgy_v4(Rng& r) { static const u32 E[] = {0x0a000000, 0x0affffff, 0x09ffffff, 0x0b000000, 0xac100000, 0xac1fffff, 0xac0fffff, 0xac200000, 0xc0a80000, 0xc0a8ffff, 0xc0a7ffff, 0xc0a90000, 0x7f000000, 0x7fffffff, 0x7effffff, 0x80000000, 0xe0000000, 0xefffffff, 0xdfffffff, 0xf0000000, 0xffffffff, 0};
+    u32 v = r.chance(1, 2) ? E[r.below(sizeof E / sizeof E[0])] : (u32)r.next(); if (r.chance(1, 4)) v += (u32)r.below(3) - 1; return v; }
+static void case_classes(Rng& r) {
+    for (int k = 0; k < 16; ++k) {
+        u32 v = (u32)edgy_v4(r); IPv4Address a = V4::make(v); std::ostringstream os; os << a;
+        if (os.str() != a.to_string()) { violation("stream-form/ipv4", "operator<< prints '" + os.str() + "' but to_string() is '" + a.to_string() + "'"); return; }
+        bool priv = (v >> 24) == 10 || (v >> 20) == 0xac1 || (v >> 16) == 0xc0a8, loop = (v >> 24) == 127, mc = (v >> 28) == 0xe, bc = v == 0xffffffff;
+        if (a.is_private() != priv) { violation("classification/ipv4/is_private", a.to_string() + ": is_private()=" + (a.is_private() ? "true" : "false")); return; }
+        if (a.is_loopback() != loop) { violation("classification/ipv4/is_loopback", a.to_string() + ": is_loopback()=" + (a.is_loopback() ? "true" : "false")); return; }
+        if (a.is_multicast() != mc) { violation("classification/ipv4/is_multicast", a.to_string() + ": is_multicast()=" + (a.is_multicast() ? "true" : "false")); return; }
+        if (a.is_broadcast() != bc) { violation("classification/ipv4/is_broadcast", a.to_string() + ": is_broadcast()=" + (a.is_broadcast() ? "true" : "false")); return; }
+        if (a.is_unicast() != (!mc && !bc)) { violation("classification/ipv4/is_unicast", a.to_string() + ": is_unicast()=" + (a.is_unicast() ? "true" : "false")); return; }
+        cnt("classification:ipv4"); if (priv) cnt("classification:ipv4:private"); if (mc) cnt("classification:ipv4:multicast"); if (loop) cnt("classification:ipv4:loopback");
+    }
+    for (int k = 0; k < 16; ++k) {
+        u128 v; switch (r.below(6)) { case 0: v = 1; break; case 1: v = ((u128)0xff << 120) | (rnd128(r) >> 8); break; case 2: v = ((u128)0xfe80 << 112) | (rnd128(r) >> 10); break; case 3: v = ((u128)(r.chance(1, 2) ? 0xfe7f : 0xfec0) << 112) | (rnd128(r) >> 16); break; case 4: v = r.below(3); break; default: v = rnd128(r); }
+        IPv6Address a = V6::make(v); std::ostringstream os; os << a;
+        if (os.str() != a.to_string()) { violation("stream-form/ipv6", "operator<< prints '" + os.str() + "' but to_string() is '" + a.to_string() + "'"); return; }
+        bool loop = v == 1, mc = (v >> 120) == 0xff, lu = (v >> 118) == 0x3fa;      // documented as fe80::/10
+        if (a.is_loopback() != loop) { violation("classification/ipv6/is_loopback", a.to_string() + ": is_loopback()=" + (a.is_loopback() ? "true" : "false")); return; }
+        if (a.is_multicast() != mc) { violation("classification/ipv6/is_multicast", a.to_string() + ": is_multicast()=" + (a.is_multicast() ? "true" : "false")); return; }
+        if (a.is_local_unicast() != lu) { violation("classification/ipv6/is_local_unicast", a.to_string() + ": is_local_unicast()=" + (a.is_local_unicast() ? "true" : "false")); return; }
+        cnt("classification:ipv6"); if (mc) cnt("classification:ipv6:multicast"); if (lu) cnt("classification:ipv6:local-unicast"); if (loop) cnt("classification:ipv6:loopback");
+    }
+    { u128 v = rnd128(r) & maxv(48); HWAddress<6> a = HW::make(v); std::ostringstream os; os << a; if (os.str() != a.to_string()) { violation("stream-form/hw", "operator<< prints '" + os.str() + "' but to_string() is '" + a.to_string() + "'"); return; }
+      bool bc = v == maxv(48), mc = ((v >> 40) & 1) != 0;
+      if (a.is_broadcast() != bc) { violation("classification/hw/is_broadcast", a.to_string()); return; }
+      if (a.is_multicast() != mc) { violation("classification/hw/is_multicast", a.to_string()); return; }
+      if (a.is_unicast() != (!bc && !mc)) { violation("classification/hw/is_unicast", a.to_string()); return; }
+      cnt("classification:hw"); }
+}
+
 int main(int argc, char** argv) {
     return vf::run(argc, argv, "C16", [&](long idx, Rng& rng) {
         if (st().a.mode == "postfix") {
             if (idx == 0) case_postfix<V4>(); else if (idx == 1) case_postfix<V6>(); else if (idx == 2) case_postfix<HW>();
             return;
         }
+        if (idx % 8 == 7) { case_classes(rng); return; }
         u32 type = rng.below(3);
         static const u32 kinds[] = {0, 0, 0, 1, 1, 1, 2, 2, 3, 3, 4, 4, 4};
         u32 kind = kinds[rng.below(sizeof kinds / sizeof kinds[0])];
